@@ -886,6 +886,124 @@ def corr_opa(seed, tier):
     return R
 
 
+# ----------------------------------------------------------------------------------------------------- multi.CCA
+def corr_mcca(seed, tier):
+    """xeofs.multi.CCA.fit / transform (2–4 views, with and without the PCA option, ridge parameters c) against XM.mccaC / mccaD /
+    mccaDpca / mccaFit / mccaTransform: the model receives what enters `_fit_algorithm` (the preprocessed views or their PC scores),
+    the stored input data, the PCA patterns (way back from PC space), scipy's eigen-pairs `eigh(C, D)` and the smallest block
+    eigenvalue (spies) and must reproduce THE TWO MATRICES HANDED TO `eigh`, the descending eigenvalues, weights per view in feature
+    space, loadings, variates, canonical loadings, explained variances and `transform` of new data for every view."""
+    import xeofs.multi.cca as mc
+
+    R = Result("mcca")
+    rng = np.random.default_rng(23000 + seed)
+    reqs, exps = [], []
+    for i in range({"quick": 8, "thorough": 40, "search": 24}[tier]):
+        nv = int([2, 3, 2, 4][i % 4])
+        pca = bool(i % 2)
+        n = int(rng.integers(25, 45))
+        ps = [int(rng.integers(3, 7)) for _ in range(nv)]
+        k = int(rng.integers(1, 3)) if not pca else int(rng.integers(1, 3))
+        cs = [0.0] * nv if i % 3 == 0 else [float(rng.choice([0.0, 0.1, 0.5])) for _ in range(nv)]
+        if i % 5 == 4:
+            cs = [1.0] * nv
+        common = rng.normal(size=(n, 2))
+        views = []
+        for v, p in enumerate(ps):
+            A = common @ rng.normal(size=(2, p)) + 0.7 * rng.normal(size=(n, p)) + rng.normal(size=p) * 3
+            A = A * (10.0 ** rng.integers(-1, 2))
+            views.append(xr.DataArray(A, dims=("time", f"x{v}"), coords={"time": np.arange(n), f"x{v}": np.arange(p) * 1.5}))
+        rec = {"eigh": [], "vals": []}
+        o_eigh, o_vals = mc.eigh, np.linalg.eigvalsh
+
+        def eigh_spy(a, b, **kw):
+            out = o_eigh(a, b, **kw)
+            rec["eigh"].append((np.array(a), np.array(b), np.array(out[0]), np.array(out[1]), dict(kw)))
+            return out
+
+        def vals_spy(M, *a, **kw):
+            out = o_vals(M, *a, **kw)
+            rec["vals"].append(np.array(out))
+            return out
+
+        mc.eigh, np.linalg.eigvalsh = eigh_spy, vals_spy
+        try:
+            model = xe.multi.CCA(n_modes=k, c=cs, pca=pca, variance_fraction=0.9, init_pca_modes=1.0, eps=1e-6)
+            model.fit(views, "time")
+        finally:
+            mc.eigh, np.linalg.eigvalsh = o_eigh, o_vals
+        sn, fn = model.sample_name, model.feature_name
+        phys = [np.asarray(d.transpose(sn, fn).values, dtype=float) for d in model.data["input_data"]]
+        pcs = [np.asarray(d.transpose(sn, fn).values, dtype=float) for d in model.data["pca_data"]]
+        Xphys, Xpc = np.hstack(phys), np.hstack(pcs)
+        blkQ = sum([[v] * a.shape[1] for v, a in enumerate(phys)], [])
+        blkP = sum([[v] * a.shape[1] for v, a in enumerate(pcs)], [])
+        Q, P = len(blkQ), len(blkP)
+        B = np.zeros((Q, P))
+        expvar = np.zeros(P)
+        if pca:
+            oq = op = 0
+            for v, pm in enumerate(model.pca_models):
+                nk = pcs[v].shape[1]
+                comp = np.asarray(pm.data["components"].transpose(fn, "mode").values, dtype=float)[:, :nk]
+                B[oq:oq + comp.shape[0], op:op + nk] = comp
+                expvar[op:op + nk] = np.asarray(pm.explained_variance().values, dtype=float)[:nk]
+                oq += comp.shape[0]
+                op += nk
+        else:
+            B = np.eye(Q)
+        a_in, b_in, evals, evecs, kw = rec["eigh"][-1]
+        lmin = min(0.0, float(rec["vals"][-1].min()))
+        shift = lmin - 1e-6
+        new = [rng.normal(size=(5, p)) for p in ps]
+        newv = [xr.DataArray(a, dims=("time", f"x{v}"), coords={"time": np.arange(5) + 100, f"x{v}": np.arange(a.shape[1]) * 1.5}) for v, a in enumerate(new)]
+        tf = model.transform(newv)
+        # what `transform` sees after preprocessing: the same centring as at fit
+        newpre = [np.asarray(model.preprocessors[v].transform(newv[v]).transpose(sn, fn).values, dtype=float) for v in range(nv)]
+        R.tally("views", nv)
+        R.tally("pca", pca)
+        R.tally("c", "ridge" if any(cs) else "zero")
+        R.tally("pc_features", P)
+        small = {"nv": nv, "n": n, "ps": ps, "k": k, "c": cs, "pca": pca, "seed": seed, "i": i}
+        exp = {"C": a_in, "D": b_in, "lam": np.asarray(model.eigvals.values, dtype=float),
+               "weights": [np.asarray(w.transpose(fn, "mode").values, dtype=float) for w in model.data["weights"]],
+               "loadings": [np.asarray(w.transpose(fn, "mode").values, dtype=float) for w in model.data["loadings"]],
+               "variates": [np.asarray(w.transpose(sn, "mode").values, dtype=float) for w in model.data["variates"]],
+               "canload": [np.asarray(w.transpose(fn, "mode").values, dtype=float) for w in model.data["canonical_loadings"]],
+               "expvar": [np.asarray(w.values, dtype=float) for w in model.data["explained_variance"]],
+               "transform": [np.asarray(t.transpose("time", "mode").values, dtype=float) for t in tf],
+               "subset": kw.get("subset_by_index")}
+        reqs.append({"fn": "mcca", "n": n, "P": P, "Q": Q, "k": k, "nv": nv, "m": 5, "blkP": blkP, "blkQ": blkQ, "Xpc": bits(Xpc), "Xphys": bits(Xphys),
+                     "B": bits(B), "c": bits(cs), "shift": f2b(shift), "pca": pca, "expvar": bits(expvar), "E": bits(evecs), "lam0": bits(evals),
+                     "Xnew": bits(np.hstack(newpre))})
+        exps.append((exp, small, (n, P, Q, k, nv), blkQ))
+    for (exp, small, (n, P, Q, k, nv), blkQ), ans in zip(exps, ask(reqs)):
+        if ans.get("status") != "ok":
+            R.cmp("status", False, small, ans, "ok")
+            continue
+        R.cmp("subset_by_index", list(exp["subset"]) == [P - k, P - 1], small, [P - k, P - 1], exp["subset"])
+        scaleC = max(1.0, float(np.abs(exp["D"]).max()))
+        for key in ("C", "D"):
+            got = unbits(ans[key], (P, P))
+            R.cmp(key, bool(np.max(np.abs(got - exp[key])) <= 1e-9 * scaleC), small, got.ravel()[:5].tolist(), exp[key].ravel()[:5].tolist())
+        got = unbits(ans["lam"], (k,))
+        R.cmp("lam", close(got, exp["lam"], 1e-12), small, got.tolist(), exp["lam"].tolist())
+        W = unbits(ans["weights"], (Q, k))
+        blk = np.array(blkQ)
+        for v in range(nv):
+            sel = blk == v
+            R.cmp("weights", close(W[sel], exp["weights"][v], 1e-8), small, W[sel].ravel()[:5].tolist(), exp["weights"][v].ravel()[:5].tolist())
+            for key, shp, rows in (("loadings", (Q, k), True), ("canload", (Q, k), True), ("variates", (n, k), False), ("transform", (5, k), False)):
+                got = unbits(ans[key][v], shp)
+                if rows:
+                    R.cmp(key + "_outside_view_zero", bool(np.all(got[~sel] == 0)), small, None, None)
+                    got = got[sel]
+                R.cmp(key, close(got, exp[key][v], 1e-7), small, got.ravel()[:5].tolist(), exp[key][v].ravel()[:5].tolist())
+            got = unbits(ans["expvar"][v], (k,))
+            R.cmp("expvar", close(got, exp["expvar"][v], 1e-8), small, got.tolist(), exp["expvar"][v].tolist())
+    return R
+
+
 # ----------------------------------------------------------------------------------------------------- POP
 def corr_pop(seed, tier):
     """POP.fit (no PCA pre-reduction) against XM.popFeedback / popCoeff / popFit at complex doubles: numpy's inverse of X0ᴴX0, the
@@ -1870,6 +1988,7 @@ CORR = {
     "lazy": corr_lazy,
     "formulas": corr_formulas,
     "crot": corr_crot,
+    "mcca": corr_mcca,
 }
 
 # which correspondences tie the model parts a property's theorems are stated on
@@ -1877,13 +1996,13 @@ BY_PROP = {
     "C01": ["complex", "eof_pipeline", "hilbert", "eeof", "sign_rule"],
     "C02": ["frame"],
     "C03": ["complex", "eof_pipeline", "scaler", "cpcca_core", "frame"],
-    "C04": ["complex", "eof_pipeline", "cpcca_core", "rotator", "crot", "frame"],
-    "C05": ["eof_pipeline"],
+    "C04": ["complex", "eof_pipeline", "cpcca_core", "rotator", "crot", "frame", "mcca"],
+    "C05": ["eof_pipeline", "mcca"],
     "C06": ["sanitizer", "frame"],
     "C07": ["frame"],
     "C08": ["scaler", "eof_pipeline"],
     "C09": ["complex", "cpcca_core", "whitener", "formulas"],
-    "C10": ["eeof", "complex", "cpcca_core", "whitener", "formulas"],
+    "C10": ["eeof", "complex", "cpcca_core", "whitener", "formulas", "mcca"],
     "C11": ["complex", "rotator", "crot", "formulas"],
     "C12": ["lazy"],
     "C13": ["codec"],
